@@ -21,6 +21,7 @@ RULE = ('Operation lists on one Equation: a constructor form (term list / string
         'Non-trivial: the sequence contains a like-term merge or a cancellation or a term spelled like the leading '
         'expression (addterm family); the first element contains an interior "+" or list has >= 3 signed elements '
         '(termlist family). Distinct: sha1 of the op list.')
+RULE = RULE + (' Input shapes added after the seeded-change rounds (DESIGN.md section 8): ' + 'every arrangement of two factors (a*b, b*a, a/b, b/a); floor division / modulo and comparisons in opaque leading expressions, with one valuation in which all variables tie.')
 ASSUMPTIONS = [
     'leading expressions have additive-or-higher precedence (no comparison/conditional/lambda), as every caller builds them',
     'terms the code rejects with LogicError/SyntaxError/NotImplementedError are skipped and counted, not judged',
